@@ -571,11 +571,19 @@ func (m *model) checkC04(res *result, p *parsed, rep *reporter) (info c04info) {
 	if k > 0 && len(p.lines) > k {
 		rep.report("C04/line-count", "", "TruncateAfterLines=%d but %d lines were returned", k, len(p.lines))
 	}
+	// The end of the paragraph. cut = runes not placed on any returned line. (C02 owns the equation
+	// "lines + Truncated cover the paragraph once"; C04 owns how runes may go missing at all: only by
+	// truncation on reaching the k-th line, reported exactly, with the truncator; done is not reported
+	// before the text is exhausted or the line limit reached.)
+	cut := m.n - p.keptEnd
 	if k == 0 && res.truncated != 0 {
 		rep.report("C04/truncated-count", "", "no truncation requested but truncated=%d", res.truncated)
 	}
-	if k > 0 && res.truncated > 0 && len(p.lines) != k {
-		rep.report("C04/truncated-early", slotBurned(), "runes were truncated (%d) although only %d of the %d permitted lines were returned", res.truncated, len(p.lines), k)
+	if cut > 0 && (k == 0 || len(p.lines) < k) {
+		rep.report("C04/done-before-end", slotBurned(), "wrapping ended after %d lines with %d runes not placed, although the text is not exhausted and the line limit (TruncateAfterLines=%d) was not reached [Truncated=%d]", len(p.lines), cut, k, res.truncated)
+	}
+	if res.truncated != cut && cut >= 0 {
+		rep.report("C04/truncated-count", "", "Truncated reports %d runes, %d runes are missing after the last line", res.truncated, cut)
 	}
 	for li := range p.lines {
 		l := &p.lines[li]
@@ -594,18 +602,18 @@ func (m *model) checkC04(res *result, p *parsed, rep *reporter) (info c04info) {
 		if l.idx != k-1 {
 			rep.report("C04/truncator-presence", slotBurned(), "call %d: truncator on returned line %d, before the %d-th line was reached", l.call, l.idx+1, k)
 		}
-		if !(res.truncated > 0 || cfg.TextContinues) {
+		if !(cut > 0 || cfg.TextContinues) {
 			rep.report("C04/truncator-presence", "", "call %d: truncator present although nothing was truncated and TextContinues is false", l.call)
 		}
 		tr := &l.o.line[l.trunc]
-		if tr.Runes.Offset != p.keptEnd || tr.Runes.Count != res.truncated {
-			rep.report("C04/truncator-range", "", "call %d: truncator reports runes {%d,%d}, the cut range is {%d,%d}", l.call, tr.Runes.Offset, tr.Runes.Count, p.keptEnd, res.truncated)
+		if tr.Runes.Offset != p.keptEnd || tr.Runes.Count != cut {
+			rep.report("C04/truncator-range", "", "call %d: truncator reports runes {%d,%d}, the cut range is {%d,%d}", l.call, tr.Runes.Offset, tr.Runes.Count, p.keptEnd, cut)
 		}
 	}
-	if k > 0 && len(p.lines) == k && (res.truncated > 0 || cfg.TextContinues) && m.c.Cfg.Truncator.Kind != "zero" && m.c.Cfg.Truncator.Kind != "" {
+	if k > 0 && len(p.lines) == k && (cut > 0 || cfg.TextContinues) && m.c.Cfg.Truncator.Kind != "zero" && m.c.Cfg.Truncator.Kind != "" {
 		// ("Truncator, if provided": the zero-value truncator is recognised when present, not demanded)
 		if p.lines[k-1].trunc < 0 {
-			rep.report("C04/truncator-presence", "", "line %d reached with truncated=%d TextContinues=%v but no truncator run", k, res.truncated, cfg.TextContinues)
+			rep.report("C04/truncator-presence", "", "line %d reached with %d runes cut, TextContinues=%v, but no truncator run", k, cut, cfg.TextContinues)
 		}
 	}
 
